@@ -946,8 +946,9 @@ class Exec:
         if isinstance(b, (int, SInt)) and not isinstance(a, Mx): b = D.lift(b)
         if isinstance(a, Mx) and isinstance(b, (int, SInt)): b = D.lift(b)
         if isinstance(b, Mx) and isinstance(a, (int, SInt)): a = D.lift(a)
-        if isinstance(a, Mx) and (a.r, a.c) == (1, 1) and isinstance(b, D): a = a.scalar()
-        if isinstance(b, Mx) and (b.r, b.c) == (1, 1) and isinstance(a, D): b = b.scalar()
+        if op in ('+', '-'):      # a 1x1 product used as a scalar (implicit conversion); scalar * 1x1 matrix stays a matrix
+            if isinstance(a, Mx) and (a.r, a.c) == (1, 1) and isinstance(b, D): a = a.scalar()
+            if isinstance(b, Mx) and (b.r, b.c) == (1, 1) and isinstance(a, D): b = b.scalar()
         if op == '+': return a + b
         if op == '-': return a - b
         if op == '*': return a * b
